@@ -2,7 +2,7 @@
    Type.Convert of /repo produced for the same value. *)
 From Coq Require Import List NArith ZArith Bool.
 Import ListNotations.
-From GMS Require Import Base.CorrLib Codec.C28Date Codec.C28Wire.
+From GMS Require Import Base.CorrLib Codec.C28Date Codec.C28Wire Codec.C28Str Codec.C28Bin.
 Open Scope Z_scope.
 
 Definition oz_eqb := option_eqb Z.eqb.
@@ -12,6 +12,25 @@ Definition dec_eqb (a b : dec) : bool :=
 
 (* every constructor: the type, the value handed to Type.SQL, the observed text (None = SQL returned an error),
    the observed Type.Convert(text) (None = error) *)
+Inductive binitem : Type :=
+| BInt (t : ity) (v : Z) (txt bin : bytes)
+| BYear (y : Z) (txt bin : bytes)
+| BDT (x : Z) (txt bin : bytes)
+| BTime (x : Z) (txt bin : bytes)
+| BStr (txt bin : bytes).
+
+Definition bin_ok (i : binitem) : bool :=
+  match i with
+  | BInt t v txt bin =>
+      bytes_eqb (int_sql_text t v) txt && obytes_eqb (int_bin t txt) (Some bin) && (int_bin_decode t bin =? v)
+  | BYear y txt bin =>
+      bytes_eqb (year_sql_text y) txt && obytes_eqb (year_bin txt) (Some bin) && (int_bin_decode I16 bin =? y)
+  | BDT x txt bin => obytes_eqb (datetime_bin txt) (Some bin) && oz_eqb (datetime_bin_decode bin) (Some x)
+  | BTime x txt bin =>
+      bytes_eqb (time_sql_text x) txt && obytes_eqb (time_bin txt) (Some bin) && oz_eqb (time_bin_decode bin) (Some x)
+  | BStr txt bin => bytes_eqb (lenenc_str txt) bin && obytes_eqb (lenenc_decode bin) (Some txt)
+  end.
+
 Inductive case : Type :=
 | CInt (t : ity) (v : Z) (txt : bytes) (back : option Z)
 | CDec (col : bool) (p s : Z) (v : dec) (txt : bytes) (back : option dec)
@@ -21,7 +40,12 @@ Inductive case : Type :=
 | CDatetime (n : N) (x : Z) (txt : option bytes) (back : option Z)
 | CTime (x : Z) (txt : bytes) (back : option Z)
 | CEnum (names : list bytes) (i : Z) (txt : bytes) (back : option Z)
-| CSet (names : list bytes) (b : Z) (txt : bytes) (back : option Z).
+| CSet (names : list bytes) (b : Z) (txt : bytes) (back : option Z)
+(* string types: value, observed len([]rune(value)), observed MaxTextResponseByteLength, text, Convert(text) *)
+| CStr (t : sty) (s : bytes) (runes announced : N) (txt : bytes) (back : option bytes)
+(* one binary-protocol row as sent by the server: per non-NULL column the stored value, the text Type.SQL gives,
+   and the bytes found in the row *)
+| CBinRow (items : list binitem).
 
 Definition on_text (txt : option bytes) (f : bytes -> option Z) : option Z :=
   match txt with Some t => f t | None => None end.
@@ -40,6 +64,9 @@ Definition ok (c : case) : bool :=
   | CTime x txt back => bytes_eqb (time_sql_text x) txt && oz_eqb (time_convert_text txt) back
   | CEnum names i txt back => bytes_eqb (enum_sql_text names i) txt && oz_eqb (enum_convert_text names txt) back
   | CSet names b txt back => bytes_eqb (set_sql_text names b) txt && oz_eqb (set_convert_text names txt) back
+  | CStr t s runes announced txt back =>
+      (N.of_nat (rune_count s) =? runes)%N && (N.of_nat (str_announced t) =? announced)%N && bytes_eqb (str_sql_text t s) txt && obytes_eqb (str_convert_text t txt) back
+  | CBinRow items => forallb bin_ok items
   end.
 
 Definition mismatches (cs : list (N * case)) : list N :=
